@@ -13,6 +13,7 @@ mod fam_helpers;
 mod fam_sem;
 mod fam_types;
 mod fam_adds;
+mod fam_roundtrip;
 
 use ctx::Ctx;
 
@@ -54,6 +55,7 @@ fn main() {
         "sem" => fam_sem::run(&mut ctx),
         "types" => fam_types::run(&mut ctx),
         "adds" => fam_adds::run(&mut ctx),
+        "roundtrip" => fam_roundtrip::run(&mut ctx),
         x => {
             eprintln!("unknown family {x}");
             std::process::exit(2);
